@@ -31,7 +31,7 @@ from .. import q
 from ..model import AnalysisError
 from ..rules import call_sites, require_before, node_calls
 from ..mutate import mutate, remove_stmts, replace_expr, replace_stmt, parse_stmt, parse_expr
-from ..x_http import atom_edges, leads_to_raise, only_through, reach_without, node_mentions, single_bindings, canon_atom, contains, raised_class
+from ..x_http import norm_func, atom_edges, leads_to_raise, only_through, reach_without, node_mentions, single_bindings, canon_atom, contains, raised_class
 
 TECHNIQUE = "branch-edge guard dominance (limit comparison before delivery) + who-reads-which-limit (fresh vs. by-value copy) + bounded-read lint"
 EXPLANATION = (
@@ -51,6 +51,11 @@ def _uncast(e):
     while isinstance(e, ast.Call) and q.call_attr(e) == "cast" and len(e.args) == 2:
         e = e.args[1]
     return e
+
+
+def _F(ck, rel, qn):
+    """the anchored function with private single-purpose helpers inlined (same qualified name)"""
+    return norm_func(ck.repo, ck.func(rel, qn))
 
 
 def limit_pred(value_is, limit_is):
@@ -82,7 +87,7 @@ def any_cmp(value_is):
 
 def live_limit(ck):
     """The connection field written by set_max_body_size (derived, not assumed)."""
-    f = ck.func(H1, "HTTP1Connection.set_max_body_size")
+    f = _F(ck, H1, "HTTP1Connection.set_max_body_size")
     ps = [p for p in f.params() if p != "self"]
     tg = [p for st in q.walk_body(f.node) if isinstance(st, ast.Assign) and q.dotted(st.value) in ps for p in q.assigned_paths(st) if p.startswith("self.")]
     if len(tg) != 1:
@@ -121,7 +126,7 @@ def check_bounded_reads(ck):
                 okm = isinstance(sz, ast.Call) and isinstance(sz.func, ast.Name) and sz.func.id == "min" and any(q.dotted(a) == "self.params.chunk_size" or (isinstance(a, ast.Constant) and type(a.value) is int) for a in sz.args)
                 ck.ob(R, f, c, okc or okm, "read_bytes asks for at most params.chunk_size (or a constant) bytes at a time")
     ck.floor(R, n, 4, "stream reads in http1connection.py")
-    p = ck.func(H1, "HTTP1ConnectionParameters.__init__")
+    p = _F(ck, H1, "HTTP1ConnectionParameters.__init__")
     for attr, floor in (("max_header_size", 1), ("chunk_size", 1)):
         sts = [st for st in q.walk_body(p.node) if isinstance(st, ast.Assign) and "self." + attr in q.assigned_paths(st)]
         ck.floor(R, len(sts), 1, "assignment of HTTP1ConnectionParameters.%s" % attr)
@@ -135,7 +140,7 @@ def check_iostream(ck):
     # max_bytes is recorded, enforced and fatal
     R = "C04.max-bytes-enforced"
     for name in ("read_until_regex", "read_until"):
-        f = ck.func(IO, "BaseIOStream." + name)
+        f = _F(ck, IO, "BaseIOStream." + name)
         n = require_before(ck, R, f, node_calls("self._try_inline_read"),
                            lambda nd: nd.kind == "stmt" and isinstance(nd.ast, ast.Assign) and "self._read_max_bytes" in q.assigned_paths(nd.ast) and q.dotted(nd.ast.value) == "max_bytes",
                            "%s records max_bytes before it tries to satisfy the read" % name)
@@ -144,14 +149,14 @@ def check_iostream(ck):
         ck.floor(R, len(hs), 1, "UnsatisfiableReadError handlers in %s" % name)
         for h in hs:
             ck.ob(R, f, h, any(q.is_call(c, "self.close") for c in q.calls(h)), "an unsatisfiable read (limit exceeded) closes the stream", construct="except UnsatisfiableReadError in %s" % name)
-    cm = ck.func(IO, "BaseIOStream._check_max_bytes")
+    cm = _F(ck, IO, "BaseIOStream._check_max_bytes")
     ps = [p for p in cm.params() if p != "self"]
     size_p = ps[-1]
     pred = limit_pred(lambda e: q.dotted(e) == size_p, lambda e: q.dotted(e) == "self._read_max_bytes")
     over = _over_edges(cm.cfg, pred)
     ok, n = leads_to_raise(cm.cfg, over, lambda cls: cls is not None and cls.endswith("UnsatisfiableReadError"))
     ck.ob(R, cm, cm.node, ok and n > 0, "_check_max_bytes raises UnsatisfiableReadError when size > max_bytes", construct="size > self._read_max_bytes")
-    fr = ck.func(IO, "BaseIOStream._find_read_pos")
+    fr = _F(ck, IO, "BaseIOStream._find_read_pos")
     cfg = fr.cfg
     chk = {n.id for n in cfg.stmt_nodes(node_calls("self._check_max_bytes"))}
     ck.floor(R, len(chk), 1, "_check_max_bytes calls in _find_read_pos")
@@ -174,7 +179,7 @@ def check_iostream(ck):
         ck.ob(R, fr, cfg.nodes[e[0]].ast, not falls, "when the delimiter is not found in a non-empty buffer, the buffered size is checked against max_bytes before giving up", construct="not-found path of %s" % q.unparse(cfg.nodes[e[0]].ast))
 
     R = "C04.buffer-cap"
-    f = ck.func(IO, "BaseIOStream._read_to_buffer")
+    f = _F(ck, IO, "BaseIOStream._read_to_buffer")
     cfg = f.cfg
     incs = cfg.stmt_nodes(lambda n: n.kind == "stmt" and isinstance(n.ast, ast.AugAssign) and isinstance(n.ast.op, ast.Add) and q.dotted(n.ast.target) == "self._read_buffer_size")
     ck.floor(R, len(incs), 1, "increments of _read_buffer_size in _read_to_buffer")
@@ -195,7 +200,7 @@ def check_iostream(ck):
 
 
 def check_content_length(ck, LIVE, R="C04.content-length-limit"):
-    fi = ck.func(H1, "HTTP1Connection._read_body")
+    fi = _F(ck, H1, "HTTP1Connection._read_body")
     cfg = fi.cfg
     fixed = call_sites(fi, "self._read_fixed_body")
     ck.floor(R, len(fixed), 1, "_read_fixed_body call sites")
@@ -229,11 +234,20 @@ def _accumulators(fi, loop_scope=None):
             d = q.dotted(st.target)
             if d:
                 out.setdefault(d, []).append(st)
+        elif isinstance(st, ast.Assign) and len(st.targets) == 1 and isinstance(st.value, ast.BinOp) and isinstance(st.value.op, ast.Add):
+            # x = x + y  /  x = y + x   is the same accumulation as  x += y
+            d = q.dotted(st.targets[0])
+            l, r = q.dotted(st.value.left), q.dotted(st.value.right)
+            if d and (l == d or r == d):
+                inc = st.value.right if l == d else st.value.left
+                aug = ast.copy_location(ast.AugAssign(target=st.targets[0], op=ast.Add(), value=inc), st)
+                aug._orig = st
+                out.setdefault(d, []).append(aug)
     return out
 
 
 def check_chunked(ck, LIVE, R="C04.chunked-total-limit"):
-    fi = ck.func(H1, "HTTP1Connection._read_chunked_body")
+    fi = _F(ck, H1, "HTTP1Connection._read_chunked_body")
     cfg = fi.cfg
     lens = set()
     for st in q.walk_body(fi.node):
@@ -254,7 +268,8 @@ def check_chunked(ck, LIVE, R="C04.chunked-total-limit"):
     T, adds = next(iter(acc.items()))
     pred = limit_pred(lambda e: q.dotted(e) == T, lambda e: q.dotted(e) == LIVE)
     ok_e = atom_edges(cfg, pred)
-    add_ids = {n.id for s in adds for n in cfg.nodes_for(s)}
+    adds_orig = [getattr(s, "_orig", s) for s in adds]
+    add_ids = {n.id for s in adds_orig for n in cfg.nodes_for(s)}
     for node, c in data_nodes:
         what = "chunk data is read/delivered only after total declared size <= %s held (live limit)" % LIVE
         g = only_through(cfg, node, ok_e)
@@ -266,7 +281,7 @@ def check_chunked(ck, LIVE, R="C04.chunked-total-limit"):
     # cumulative: the only writes to T are `T = 0` before the loop and `T += chunk_len` once per chunk before the comparison
     pm = q.parent_map(fi.node)
     for st in q.walk_body(fi.node):
-        if isinstance(st, (ast.Assign, ast.AnnAssign, ast.AugAssign)) and T in q.assigned_paths(st) and st not in adds:
+        if isinstance(st, (ast.Assign, ast.AnnAssign, ast.AugAssign)) and T in q.assigned_paths(st) and st not in adds_orig:
             in_loop = any(isinstance(a, (ast.While, ast.For)) for a in q.ancestors(pm, st))
             ck.ob(R, fi, st, not in_loop and isinstance(st, (ast.Assign, ast.AnnAssign)) and isinstance(st.value, ast.Constant) and st.value.value == 0, "the running total is initialised to 0 once and never reset inside the loop")
     len_assign = cfg.stmt_nodes(lambda n: n.kind == "stmt" and isinstance(n.ast, ast.Assign) and isinstance(n.ast.targets[0], ast.Name) and n.ast.targets[0].id in lens)
@@ -282,8 +297,8 @@ def check_chunked(ck, LIVE, R="C04.chunked-total-limit"):
 
 def check_gzip(ck, LIVE, R="C04.decompressed-limit"):
     repo = ck.repo
-    fi = ck.func(H1, "_GzipMessageDelegate.data_received")
-    init = ck.func(H1, "_GzipMessageDelegate.__init__")
+    fi = _F(ck, H1, "_GzipMessageDelegate.data_received")
+    init = _F(ck, H1, "_GzipMessageDelegate.__init__")
     cfg = fi.cfg
     # the decompress call is bounded
     dec = [(n, c) for n, c in cfg.find(lambda x: isinstance(x, ast.Call) and q.call_attr(x) == "decompress")]
@@ -318,14 +333,15 @@ def check_gzip(ck, LIVE, R="C04.decompressed-limit"):
                 limits.add(q.unparse(l))
     pred = limit_pred(lambda e: q.dotted(e) == T, lambda e: q.unparse(e) in limits)
     ok_e = atom_edges(cfg, pred)
-    add_ids = {n.id for s in adds for n in cfg.nodes_for(s)}
+    adds_orig = [getattr(s, "_orig", s) for s in adds]
+    add_ids = {n.id for s in adds_orig for n in cfg.nodes_for(s)}
     for node, c in fwd:
         ck.ob(R, fi, c, bool(ok_e) and only_through(cfg, node, ok_e), "decompressed data is forwarded only after cumulative decompressed size <= limit held ('>'/'<=' comparison)")
         sub = reach_without(cfg, (), start=[n for n, _c in dec][0].id, follow_exc=False, stop=lambda n: n.id in add_ids)
         ck.ob(R, fi, c, node.id not in sub, "every decompressed piece is added to the running total before it is forwarded")
     pm = q.parent_map(fi.node)
     for st in q.walk_body(fi.node):
-        if isinstance(st, (ast.Assign, ast.AnnAssign, ast.AugAssign)) and T in q.assigned_paths(st) and st not in adds:
+        if isinstance(st, (ast.Assign, ast.AnnAssign, ast.AugAssign)) and T in q.assigned_paths(st) and st not in adds_orig:
             ck.ob(R, fi, st, False, "the decompressed total is never reset while a message is being read")
     okr, n = leads_to_raise(cfg, _over_edges(cfg, pred), _is_input_error)
     ck.ob(R, fi, fi.node, okr and n > 0, "a body that inflates above the limit raises HTTPInputError", construct="decompressed total over limit -> raise")
@@ -339,7 +355,7 @@ def check_fresh_limit(ck, LIVE, gz_limits):
     """The limit operand of the gzip comparison must read the connection's live field at use time."""
     R = "C04.fresh-limit"
     repo = ck.repo
-    init = ck.func(H1, "_GzipMessageDelegate.__init__")
+    init = _F(ck, H1, "_GzipMessageDelegate.__init__")
     init_ps = [p for p in init.params() if p != "self"]
     live_attr = LIVE.split(".", 1)[1]
     # construction sites of the gzip delegate inside HTTP1Connection
@@ -392,13 +408,13 @@ def check_fresh_limit(ck, LIVE, gz_limits):
 
     # the connection (and the override) is per request
     R2 = "C04.fresh-limit"
-    loop = ck.func(H1, "HTTP1ServerConnection._server_request_loop")
+    loop = _F(ck, H1, "HTTP1ServerConnection._server_request_loop")
     pm = q.parent_map(loop.node)
     ctor = [c for c in q.calls(loop.node) if q.call_attr(c) == "HTTP1Connection"]
     ck.floor(R2, len(ctor), 1, "HTTP1Connection constructions in the serving loop")
     for c in ctor:
         ck.ob(R2, loop, c, any(isinstance(a, ast.While) for a in q.ancestors(pm, c)), "a fresh HTTP1Connection (hence a fresh body limit) is created for every request; a per-request override cannot leak")
-    ci = ck.func(H1, "HTTP1Connection.__init__")
+    ci = _F(ck, H1, "HTTP1Connection.__init__")
     sts = q.stores_to(ci.node, LIVE)
     ck.floor(R2, len(sts), 1, "initialisation of %s" % LIVE)
     for st in sts:
@@ -432,7 +448,7 @@ def _field_source(init, field):
 
 def check_wiring(ck):
     R = "C04.params-wired"
-    fi = ck.func(HS, "HTTPServer.initialize")
+    fi = _F(ck, HS, "HTTPServer.initialize")
     calls = [c for c in q.calls(fi.node) if q.call_attr(c) == "HTTP1ConnectionParameters"]
     ck.floor(R, len(calls), 1, "HTTP1ConnectionParameters constructions in HTTPServer.initialize")
     want = {"max_header_size": "max_header_size", "max_body_size": "max_body_size", "chunk_size": "chunk_size", "decompress": "decompress_request"}
@@ -445,21 +461,21 @@ def check_wiring(ck):
     for c in tcp:
         v = q.kwarg(c, "max_buffer_size")
         ck.ob(R, fi, c, v is not None and q.dotted(v) == "max_buffer_size", "HTTPServer passes its max_buffer_size to the stream factory (TCPServer)", construct="max_buffer_size=max_buffer_size")
-    hs = ck.func(HS, "HTTPServer.handle_stream")
+    hs = _F(ck, HS, "HTTPServer.handle_stream")
     cc = [c for c in q.calls(hs.node) if q.call_attr(c) == "HTTP1ServerConnection"]
     ck.floor(R, len(cc), 1, "HTTP1ServerConnection constructions")
     for c in cc:
         ck.ob(R, hs, c, any(q.dotted(a) == "self.conn_params" for a in list(c.args) + [k.value for k in c.keywords]), "every accepted connection uses the server's configured limits")
-    p = ck.func(H1, "HTTP1ConnectionParameters.__init__")
+    p = _F(ck, H1, "HTTP1ConnectionParameters.__init__")
     for attr in ("max_body_size",):
         sts = q.stores_to(p.node, "self." + attr)
         ck.floor(R, len(sts), 1, "assignment of params.%s" % attr)
         for st in sts:
             ck.ob(R, p, st, q.dotted(st.value) == attr, "params.%s stores the configured value unchanged" % attr)
-    lp = ck.func(H1, "HTTP1ServerConnection._server_request_loop")
+    lp = _F(ck, H1, "HTTP1ServerConnection._server_request_loop")
     for c in [c for c in q.calls(lp.node) if q.call_attr(c) == "HTTP1Connection"]:
         ck.ob(R, lp, c, any(q.dotted(a) == "self.params" for a in list(c.args) + [k.value for k in c.keywords]), "each request connection is created with the configured parameters")
-    rr = ck.func(H1, "HTTP1Connection.read_response")
+    rr = _F(ck, H1, "HTTP1Connection.read_response")
     wraps = [n for n, c in rr.cfg.find(lambda x: isinstance(x, ast.Call) and q.call_attr(x) == "_GzipMessageDelegate")]
     dec = atom_edges(rr.cfg, lambda a: True if q.dotted(a) == "self.params.decompress" else None)
     nod = atom_edges(rr.cfg, lambda a: False if q.dotted(a) == "self.params.decompress" else None)
@@ -488,9 +504,9 @@ def run(ck):
     check_chunked(ck, LIVE)
     gz = check_gzip(ck, LIVE)
     from . import c01 as _c01
-    _c01.check_counted_reads(ck, ck.func(H1, "HTTP1Connection._read_fixed_body"), set(), RP="C04")
-    lens = {st.targets[0].id for st in q.walk_body(ck.func(H1, "HTTP1Connection._read_chunked_body").node) if isinstance(st, ast.Assign) and isinstance(st.targets[0], ast.Name) and isinstance(st.value, ast.Call) and q.call_attr(st.value) in ("parse_hex_int", "int")}
-    _c01.check_counted_reads(ck, ck.func(H1, "HTTP1Connection._read_chunked_body"), lens, RP="C04")
+    _c01.check_counted_reads(ck, _F(ck, H1, "HTTP1Connection._read_fixed_body"), set(), RP="C04")
+    lens = {st.targets[0].id for st in q.walk_body(_F(ck, H1, "HTTP1Connection._read_chunked_body").node) if isinstance(st, ast.Assign) and isinstance(st.targets[0], ast.Name) and isinstance(st.value, ast.Call) and q.call_attr(st.value) in ("parse_hex_int", "int")}
+    _c01.check_counted_reads(ck, _F(ck, H1, "HTTP1Connection._read_chunked_body"), lens, RP="C04")
     check_fresh_limit(ck, LIVE, gz)
     check_wiring(ck)
 
